@@ -583,6 +583,8 @@
    (else
     (let ((d (car o)))
       (cond
+       ((not (and (fixnum? d) (<= 2 d 36)))
+        (error "number->string: invalid numeric base" d))
        ((%complex? num)
         (let ((real (real-part num))
               (imag (imag-part num)))
